@@ -387,7 +387,9 @@ def match_known(prop_id, f, known):
     for e in known:
         if e.get("property") != prop_id:
             continue
-        m = e.get("match", {})
+        m = e.get("match")
+        if not m:
+            continue  # witness-only entries (defects excluded by construction) never suppress a generated failure
         ok = True
         for k in ("clause", "kind", "where"):
             if k in m and m[k] != f.get(k):
